@@ -43,7 +43,7 @@ def run(ctx):
             ctx.ob("E1.groups", "%s/HashToPoint::Output" % im["self"], out == pinned["group_of_signature"][im["self"]], "%s hashes into %s" % (im["self"], out))
     K.check_keygen(ctx, P)
     K.check_seeded_derivation(ctx, P)
-    K.check_core_table(ctx, P)
+    K.check_core_table(ctx, P, methods=("sign", "partial_sign", "pop_prove", "verify", "partial_verify", "pop_verify", "multi_sig_verify"))
     # compressed point encoding for the byte form of keys and proofs of possession
     for ty in ("PublicKey", "MultiPublicKey", "ProofOfPossession"):
         f = ctx.need_fn("E9.compressed", "<Vec<u8> as From<&%s<C>>>::from" % ty)
